@@ -92,6 +92,27 @@ Fixpoint dedup_kinds (l : list ukind) (seen : list ukind) : list ukind :=
   | k :: t => if existsb (ukind_eqb k) seen then dedup_kinds t seen else k :: dedup_kinds t (k :: seen)
   end.
 
+(* the lexical space of decimal64 (RFC 7950 9.3.1): [+-]? digits ( "." digits )? *)
+Definition is_digit (c : rune) : bool := (48 <=? c) && (c <=? 57).
+Fixpoint all_digits1 (s : str) : bool :=       (* one or more digits *)
+  match s with
+  | [] => false
+  | [c] => is_digit c
+  | c :: t => is_digit c && all_digits1 t
+  end.
+Fixpoint split_dot (s : str) (cur : str) : list str :=
+  match s with
+  | [] => [cur]
+  | c :: t => if c =? 46 then cur :: split_dot t [] else split_dot t (cur ++ [c])
+  end.
+Definition dec64_lexb (s : str) : bool :=
+  let body := match s with c :: t => if (c =? PLUS) || (c =? MINUS) then t else s | [] => [] end in
+  match split_dot body [] with
+  | [i] => all_digits1 i
+  | [i; f] => all_digits1 i && all_digits1 f
+  | _ => false
+  end.
+
 (* sanitizeJSON for one non-union, non-enum kind *)
 Definition dec_kind (fo : float_oracle) (k : ukind) (j : json) : result scalar :=
   match k, j with
@@ -106,7 +127,9 @@ Definition dec_kind (fo : float_oracle) (k : ukind) (j : json) : result scalar :
       else let t := jnum_trunc m e in
            if (t <? ikind_min ik)%Z || (ikind_max ik <? t)%Z then Err
            else match jnum_int m e with Some z => Ok (VInt ik z) | None => Err end
-  | KDec, JStr s => match fparse fo s with Some b => Ok (VDec b) | None => Err end
+  | KDec, JStr s => match fparse fo s with
+                     | Some b => if dec64_lexb s then Ok (VDec b) else Err
+                     | None => Err end
   | KStr, JStr s => Ok (VStr s)
   | KBin, JStr s => match b64dec s with Some bs => Ok (VBin bs) | None => Err end
   | KBool, JBool b => Ok (VBool b)
